@@ -17,7 +17,10 @@ func guardFor(prop string, p prog.Program) prog.Guard {
 	case "C01", "C02", "C03":
 		return prog.Chain(prog.GuardF2, gcGuard(prop, p))
 	case "C15":
-		return prog.Chain(prog.GuardF2, prog.GuardF6, prog.GuardF10F11(p), prog.GuardF49, gcGuard(prop, p))
+		// (F35: a range boundary inside a surrogate pair - with undo/redo the halves
+		// are re-created from Go strings on purged replicas and revived as UTF-16
+		// units elsewhere)
+		return prog.Chain(prog.GuardF2, prog.GuardF35, prog.GuardF6, prog.GuardF10F11(p), prog.GuardF49, gcGuard(prop, p))
 	}
 	return nil
 }
